@@ -44,6 +44,14 @@ use std::{
 /// Logging target for the file.
 const LOG_TARGET: &str = "litep2p::ipfs::kademlia::store";
 
+/// Current time (an offset clock under the verification cfg).
+#[cfg(not(litep2p_verif))]
+fn now() -> std::time::Instant {
+    std::time::Instant::now()
+}
+#[cfg(litep2p_verif)]
+use crate::verif::clock::now;
+
 /// Memory store events.
 #[derive(Debug, PartialEq, Eq)]
 pub enum MemoryStoreAction {
@@ -101,7 +109,7 @@ impl MemoryStore {
         let is_expired = self
             .records
             .get(key)
-            .is_some_and(|record| record.is_expired(std::time::Instant::now()));
+            .is_some_and(|record| record.is_expired(now()));
 
         if is_expired {
             self.records.remove(key);
@@ -160,7 +168,7 @@ impl MemoryStore {
     /// Returns a non-empty list of providers, if any.
     pub fn get_providers(&mut self, key: &Key) -> Vec<ContentProvider> {
         let drop_key = self.provider_keys.get_mut(key).is_some_and(|providers| {
-            let now = std::time::Instant::now();
+            let now = now();
             providers.retain(|p| !p.is_expired(now));
 
             providers.is_empty()
@@ -198,7 +206,7 @@ impl MemoryStore {
                 key,
                 provider: provider.peer,
                 addresses: provider.addresses,
-                expires: std::time::Instant::now() + self.config.provider_ttl,
+                expires: now() + self.config.provider_ttl,
             };
             record.addresses.truncate(self.config.max_provider_addresses);
             record
